@@ -1,5 +1,6 @@
 import Zlink.Proofs.IdlIfaceRT
 import Zlink.Proofs.IdlLayoutIface
+import Zlink.Proofs.IdlSound
 /-! # C13 — The IDL parser accepts exactly the Varlink grammar and builds the denoted tree
 
 Model: `Zlink/Model/Idl.lean` + `parseInterface` in `Zlink/Model/IdlRender.lean` — a function-by-function port of
@@ -72,6 +73,22 @@ theorem C13_layout {a : Iface} {core : In} (h : IfaceCoreL a core) (lead trail :
 /-- … and the same for type expressions alone: every layout of a type is read back by `varlink_type`. -/
 theorem C13_types_layout {t : Ty} {s : In} (ht : TyL t s) (z : In) (hz : stopTyG z) :
     varlinkType (tyFuel (s ++ z)) (s ++ z) = .ok t z := varlinkType_tyFuelL ht z hz
+
+/-- **Soundness of the interface-name lexer**: whatever it accepts is a word of
+    `[A-Za-z]([-]*[A-Za-z0-9])*(\.[A-Za-z0-9]([-]*[A-Za-z0-9])*)+`. With `C13_interface_names_complete`
+    the lexer is exact. -/
+theorem C13_interface_names_sound (i n r : In) (h : interfaceName i = .ok n r) : ifaceNameOK n = true :=
+  interfaceName_sound i n r h
+
+/-- **Soundness at the level of the tree** (every input text, unbounded): whatever `parse_interface`
+    accepts, the description it returns consists of grammatical names only (interface, type, method,
+    error, field, parameter and variant names each in its regular language), every comment is one line
+    without leading blank, `?` is never applied to `?`, and inline enums carry no variant comments.
+    (Not covered: that the *text* was grammatical and nothing of it ignored - decided by the oracle
+    `nothingIgnored` per explored text; and that an inline enum has at least one variant, which holds
+    only for sufficient parser fuel.) -/
+theorem C13_sound_tree (s : In) (a : Iface) (h : parseInterface s = .ok a) : ifaceW a = true :=
+  parseInterface_sound s a h
 
 /-- The statement without the side condition on inline enums (kept visible): it is *false* for a
     constructor-built inline enum with a commented variant, whose only rendering is the multi-line form
